@@ -165,6 +165,10 @@ def _exec(sched, lname, kind, unit):
         light.hw_drivers[c] = [d]
     nch = 1 if lname == 'l_w' else 3
     lines = []
+    saved_style = light._rbgw_style
+    if lname == 'l_rgbw':
+        # the three values of mpf: rgbw_white_behavior (the attribute is only ever assigned from that setting at load)
+        light._rbgw_style = ('min_rgb', 'duck_rgb', 'white_only')[(len(sched) + {50: 0, 100: 1, 200: 2}.get(unit, 0)) % 3]
 
     def corrected():
         col = light.color_correct(light.gamma_correct(light.get_color()))
@@ -226,6 +230,7 @@ def _exec(sched, lname, kind, unit):
             system.stop()
         for c in chans:
             light.hw_drivers[c] = saved[c]
+        light._rbgw_style = saved_style
         light.clear_stack()
         light._last_fade_target = None
         h.advance_time_and_run(0.1)
@@ -272,6 +277,7 @@ def run(ctx):
     jobs = [([s['act'] for s in b], rnd.choice(LIGHTS), rnd.choice(BACKENDS), rnd.choice(UNITS)) for b in behs]
     for s in handmade():
         jobs += [(s, lt, be, 50) for lt in ('l_w', 'l_rgb') for be in BACKENDS]
+        jobs += [(s, 'l_rgbw', be, u) for be in BACKENDS[:2] for u in (50, 100, 200)]
     res = harness.pmap(exec_schedule, jobs, chunk=8)
     traces = [t for r in res for t in r]
     owner = [i for i, r in enumerate(res) for _ in r]
